@@ -166,6 +166,18 @@ theorem ok_indices_are_a_prefix (b : Bool) (ts : List Tok) (i j : Nat) (hij : i 
     intro h
     exact Nat.lt_of_le_of_lt (Nat.div_le_div_right hij) h
 
+/-- `rename-toks`: OK exactly for the indices below the number of distinct renameable identifiers (a prefix); then
+    **every** occurrence of that one identifier, as an identifier token, is replaced by the one new name and nothing else
+    changes; on STOP nothing is printed -/
+theorem rename_spec (b : Bool) (idx : Nat) (ts : List Tok) :
+    let newname := findUnused ts (ts.length + 2) ['a']
+    let index := ((ts.filter fun t => t.kind = .ident && shouldRename t.str newname).map (·.str)).eraseDups
+    ((run b .rename idx ts).exit = .ok ↔ idx < index.length) ∧
+    ((run b .rename idx ts).exit = .ok → ∃ target, index[idx]? = some target ∧
+      (run b .rename idx ts).out = ts.flatMap fun t => if t.kind = .ident ∧ t.str = target then newname else t.str) ∧
+    ((run b .rename idx ts).exit = .stop → (run b .rename idx ts).out = []) :=
+  renameToks_spec idx ts
+
 /-- non-vacuity: `"ab" "" "c"`, delete-string 1 replaces the third token; shorten-string 1 drops the `b` -/
 example : run true .deleteString 1 [⟨.string, "\"ab\"".toList⟩, ⟨.string, "\"\"".toList⟩, ⟨.string, "\"c\"".toList⟩] =
     ⟨.ok, "\"ab\"\"\"\"\"".toList⟩ := by decide
